@@ -7,9 +7,10 @@
 (* harness/project.cn_case (5 unique regions e1 i1 e2 i2 e3; configurations *)
 (* 1 = default, 2 = left fusion "4" (keeps i2, e3), 3 = right fusion "5"    *)
 (* (keeps e1, i1; pseudogene gains e2..e3), 4 = whole-gene deletion "6";    *)
-(* pseudogene present), default penalties, M in Ms, cn_max in CnMaxs,       *)
-(* long-read fusion support in FsSet (0: none; 1: left fusion unsupported;   *)
-(* 2: right fusion unsupported).  Depths = every well-formed explanation    *)
+(* pseudogene present), default penalties, M in Ms, parameter mode in Modes  *)
+(* (0: cn_max 20, no long-read fusion support values; 1: cn_max 1; 2: left   *)
+(* fusion without long-read support; 3: right fusion without support; modes  *)
+(* are explored in this order so that witnesses prefer the defaults).  Depths = every well-formed explanation    *)
 (* (two complete copies, <= XMax weak copies, <= QMax free pseudogene        *)
 (* copies) planted exactly (integers), then ONE region of the gene or the    *)
 (* pseudogene perturbed by +-1 copy.                                         *)
@@ -20,7 +21,9 @@
 (*   allowed without K>> (structures within gap 0 as <<counts, score>>).     *)
 (***************************************************************************)
 EXTENDS CNEncoding, TLCExt
-CONSTANTS Ms, CnMaxs, FsSet, XMax, QMax, Margin
+CONSTANTS Ms, Modes, XMax, QMax, Margin
+ModeCm(m) == IF m = 1 THEN 100 ELSE 2000
+ModeFs(m) == IF m = 2 THEN 1 ELSE IF m = 3 THEN 2 ELSE 0
 
 ToyCfgs(fs) ==
     << [name |-> "1", kind |-> "default",  g |-> <<1, 1, 1, 1, 1>>, ps |-> <<1, 1, 1, 1, 1>>, fsA |-> 0, fsB |-> -1],
@@ -51,8 +54,9 @@ MkCase(M, cm, fs, e, bump) ==
              c1 |-> Pos0(100 * PseudoCn(b0, k, e, r) + (IF bump[1] = 2 /\ bump[2] = r THEN bump[3] ELSE 0)),
              w10 |-> 10]]]
 
-Init == \E M \in Ms : \E cm \in CnMaxs : \E fs \in FsSet : \E e \in Plans(M) :
-            /\ stage = "plan" /\ info = [M |-> M, cm |-> cm, fs |-> fs, e |-> e, bump |-> <<0, 0, 0>>] /\ case = <<>>
+Init == \E mode \in Modes : \E M \in Ms : \E e \in Plans(M) :
+            /\ stage = "plan" /\ case = <<>>
+            /\ info = [M |-> M, cm |-> ModeCm(mode), fs |-> ModeFs(mode), e |-> e, bump |-> <<0, 0, 0>>]
 Next == /\ stage = "plan"
         /\ \E b \in Bumps : /\ stage' = "case"
                             /\ info' = [info EXCEPT !.bump = b]
